@@ -45,7 +45,7 @@ def one(a, kind, method, dtype, cot, fx=False, tol=1e-5):
         if fx:
             g, _ = AG.build_fgg_fx(a, kind, dtype)
         else:
-            g, _ = AG.build_fgg(a, kind, dtype)
+            g, _ = AG.build_fgg(a, kind, dtype, start_last=(len(cot) % 2 == 0 and method == 'newton'))
         for f in g.factors.values():
             f.weights.requires_grad_()
         with warnings.catch_warnings():
